@@ -26,6 +26,35 @@ pub proof fn lemma_kid_idx<T>(kids: Seq<Necessity<Element<T>>>, name: T)
         assert(forall|j: int| 1 <= j < kid_idx(kids, name) ==> (#[trigger] kids[j]) == t[j - 1]);
     }
 }
+/// `k` is the index `kid_idx` computes: nothing called `name` before `k`, and `k` is the end or an entry called `name`
+pub proof fn lemma_kid_idx_is<T>(kids: Seq<Necessity<Element<T>>>, name: T, k: int)
+    requires
+        0 <= k <= kids.len(),
+        forall|j: int| 0 <= j < k ==> (#[trigger] kids[j]).val().name != name,
+        k < kids.len() ==> kids[k].val().name == name,
+    ensures kid_idx(kids, name) == k,
+    decreases kids.len()
+{
+    if kids.len() > 0 && k > 0 {
+        let t = kids.drop_first();
+        assert(kids[0].val().name != name);
+        assert forall|j: int| 0 <= j < k - 1 implies (#[trigger] t[j]).val().name != name by { assert(t[j] == kids[j + 1]); }
+        if k < kids.len() { assert(t[k - 1] == kids[k]); }
+        lemma_kid_idx_is(t, name, k - 1);
+    }
+}
+/// the children seen as a MAP from names to entries: the entry of the child called `name`, if any
+pub open spec fn entry<T>(kids: Seq<Necessity<Element<T>>>, name: T) -> Option<Necessity<Element<T>>> {
+    if kid_idx(kids, name) < kids.len() { Some(kids[kid_idx(kids, name)]) } else { None }
+}
+/// `new` is `old` with the child called `name` (if there is one) retagged Optional - same element value, hence the same
+/// subtree - and every other entry untouched.  A statement about the map; the order of the vector is not constrained.
+pub open spec fn marked_optional_map<T>(old: Seq<Necessity<Element<T>>>, new: Seq<Necessity<Element<T>>>, name: T) -> bool {
+    &&& new.len() == old.len()
+    &&& forall|n: T| #[trigger] entry(new, n) == (if n == name {
+            match entry(old, n) { Some(k) => Some(Necessity::Optional(k.val())), None => None }
+        } else { entry(old, n) })
+}
 /// child names pairwise distinct (the representation invariant of C16)
 pub open spec fn uniq_kids<T>(kids: Seq<Necessity<Element<T>>>) -> bool {
     forall|i: int, j: int| 0 <= i < j < kids.len() ==> (#[trigger] kids[i]).val().name != (#[trigger] kids[j]).val().name
